@@ -67,10 +67,29 @@ def i1(run, tu):
     # owning pointer: only index 0
     own = g.edges_of(lambda cn, lab: cn.kind == 'cond' and lab == 'T' and cx.render(cn.ast) in (
         'Py_TYPE(cd) == &CDataOwning_Type', 'Py_TYPE(cd) == &CDataOwningGC_Type'))
-    run.need(len(own) >= 2, '%s: CDataOwn_Check(cd) not found' % fn)
-    pas = g.edges_of(lambda cn, lab: cn.kind == 'cond' and ((cx.render(cn.ast) == 'i != 0' and lab == 'F') or (cx.render(cn.ast) == 'i == 0' and lab == 'T')))
-    ok = bool(pas) and all(r.id not in g.reach([t], avoid_edges=pas) for _s, t, _l in own)
-    run.ob('I1/owning-pointer-accepts-only-index-0', fn, 'CDataOwn_Check(cd) -> i == 0', ok, tu.where(r.ast))
+    if len(own) >= 2:
+        pas = g.edges_of(lambda cn, lab: cn.kind == 'cond' and ((cx.render(cn.ast) == 'i != 0' and lab == 'F') or (cx.render(cn.ast) == 'i == 0' and lab == 'T')))
+        ok = bool(pas) and all(r.id not in g.reach([t], avoid_edges=pas) for _s, t, _l in own)
+        run.ob('I1/owning-pointer-accepts-only-index-0', fn, 'CDataOwn_Check(cd) -> i == 0', ok, tu.where(r.ast))
+    else:
+        # the shared helper does not make the test: then every function that indexes through it has to, after the call
+        # (the address it got back differs from c_data), or the rule is gone for that operation
+        callers = sorted(n_ for n_, f_ in tu.functions.items() if tu.has_func(n_) and n_ != fn and any(cx.callee_name(c) == fn for c in cx.calls_in(f_)))
+        run.need(callers, '%s: no caller found' % fn)
+        # only the operations installed on the owning types matter (CDataOwn_as_mapping)
+        slots = {x['ref']['name'] for x in cx.walk(tu.var('CDataOwn_as_mapping')) if x.get('kind') == 'DeclRefExpr' and x.get('ref')}
+        callers = [c_ for c_ in callers if c_ in slots]
+        run.need(callers, 'CDataOwn_as_mapping: no operation of the owning types indexes through %s' % fn)
+        for cn_ in callers:
+            cg = cfg_of(tu, cn_)
+            calls_ = cg.nodes_calling(fn)
+            after = set()
+            for c_ in calls_:
+                after |= set(cg.reach([c_.id], include_start=False))
+            raises = [n_ for n_ in cg.nodes if n_.id in after and n_.ast is not None and any(
+                cx.callee_name(c) in ('PyErr_Format', 'PyErr_SetString') and cx.call_args(c) and cx.render(cx.call_args(c)[0]) == 'PyExc_IndexError' for c in cx.calls_in(n_.ast))]
+            run.ob('I1/owning-pointer-accepts-only-index-0', cn_, 'index through %s' % fn, bool(raises), tu.where(calls_[0].ast) if calls_ else tu.where(tu.func(cn_)),
+                   '%s no longer refuses a non-zero index on an owning pointer (ffi.new("T *") allocates one item) and %s does not either: p[1] = v writes outside the allocation' % (fn, cn_))
     # both owning tests are under the pointer class
     # rejecting exits
     cls = setter_classes(g)
